@@ -467,6 +467,16 @@ class DavSession:
         resp = self.world.request("REPORT", path, [("Content-Type", "text/xml"), ("Depth", "1")], body)
         return self._record({"op": "Query", "c": c}, resp, {"m": "REPORT", "path": path, "uid": uid})
 
+    def expandquery(self, c):
+        """calendar-query asking for the expanded form of every event of 2020/2021 (a read)."""
+        body = ('<?xml version="1.0" encoding="utf-8"?><C:calendar-query xmlns:C="urn:ietf:params:xml:ns:caldav" '
+                'xmlns:D="DAV:"><D:prop><D:getetag/><C:calendar-data><C:expand start="20200101T000000Z" '
+                'end="20220101T000000Z"/></C:calendar-data></D:prop><C:filter><C:comp-filter name="VCALENDAR">'
+                '<C:comp-filter name="VEVENT"/></C:comp-filter></C:filter></C:calendar-query>').encode("utf-8")
+        path = self.slots[c] + "/"
+        resp = self.world.request("REPORT", path, [("Content-Type", "text/xml"), ("Depth", "1")], body)
+        return self._record({"op": "Query", "c": c}, resp, {"m": "REPORT-expand", "path": path})
+
     def multiget(self, c, items):
         """items: list of (class, name) with class in
         live|missing|dup|enc|abs|othercoll|outside|coll|malformed ; recorded with the answers."""
@@ -493,6 +503,8 @@ class DavSession:
                 h = urllib.parse.quote(w.url(base))
             elif cls == "malformed":
                 h = "::" + n
+            elif cls == "badutf":     # a percent-escape that is not valid UTF-8
+                h = urllib.parse.quote(w.url(base)) + "%FF" + urllib.parse.quote(n)
             else:
                 raise ValueError(cls)
             hrefs.append(h)
@@ -704,8 +716,11 @@ class DavSession:
             # the collection handed out usable), then the empty token, then a foreign one
             # a token another collection of this server issued (and this one never did)
             # (not the id of the empty tree: every repository knows that object)
+            # (nor a tree this collection's own history contains - tokens are content addresses,
+            # two collections with the same contents at some time share the token of that state)
             sib = [t for oc in sorted(self.tokens) if oc != c for t in self.tokens[oc][-2:]
-                   if t not in toks and "4b825dc642cb6eb9a060e54bf8d69288fbee4904" not in t]
+                   if t not in toks and "4b825dc642cb6eb9a060e54bf8d69288fbee4904" not in t
+                   and not self._knows_object(c, t)]
             for tok, tk in [(t, "issued") for t in reversed(pick)] + [("", "empty")] + \
                            [(FOREIGN_TOKENS[self.foreign_i % len(FOREIGN_TOKENS)], "foreign")] + \
                            [(t, "foreign") for t in sib[-1:]]:
@@ -718,6 +733,22 @@ class DavSession:
         return {"kind": kind, "listing": listing, "members": members, "cfg": gitinfo.pop("cfg", 0),
                 "typed": bool(gitinfo.pop("typed", typed_fallback)), "tagged": True, "tags": tagviews, "props": props, "sync": sync, "hrefs_ok": hrefs_ok,
                 "git": gitinfo}
+
+    def _knows_object(self, c, token):
+        """Does the repository of collection c contain the object the token names?"""
+        import re
+        m = re.search(r"[0-9a-f]{40}", token)
+        if not m:
+            return False
+        try:
+            import dulwich.repo
+            r = dulwich.repo.Repo(self.world.fspath(self.slots[c]))
+            try:
+                return m.group(0).encode("ascii") in r.object_store
+            finally:
+                r.close()
+        except Exception:
+            return False
 
     def _merge_report(self, resp, base_url, members, datatag, which, kind):
         if resp.status != 207:
